@@ -82,10 +82,16 @@ func runC30(c *Ctx) {
 	}
 	w := c.NewWorld(simrt.Config{LockYield: true, PreemptPct: 10 + 20*ch.Pick(4, "preempt")})
 	ResetStamp()
-	p, err := tls.VerifNewPRNGWithSeed(&seed)
+	// the constructor gets a scratch copy of the seed that is overwritten right afterwards: the
+	// stream must depend on the seed value at construction, not on the caller's buffer later
+	scratch := seed
+	p, err := tls.VerifNewPRNGWithSeed(&scratch)
 	if err != nil {
 		c.Violate("constructor-error", "%v", err)
 		return
+	}
+	for i := range scratch {
+		scratch[i] ^= 0xff
 	}
 	// helpers consume an implementation-defined number of stream bytes (rejection sampling),
 	// so they run on a second shared instance and the stream model covers only p
@@ -217,7 +223,9 @@ func runC30(c *Ctx) {
 		}
 	}
 	// same seed, second instance, sequential: identical stream prefix
-	p2, _ := tls.VerifNewPRNGWithSeed(&seed)
+	scratch2 := seed
+	p2, _ := tls.VerifNewPRNGWithSeed(&scratch2)
+	scratch2 = tls.PRNGSeed{}
 	b2 := make([]byte, 64)
 	p2.Read(b2)
 	if !bytes.Equal(b2, stream[:64]) {
@@ -244,7 +252,9 @@ func runC30(c *Ctx) {
 			}
 		}
 		prev = append(prev, s1)
-		ps, _ := tls.VerifNewPRNGWithSaltedSeed(&seed, s)
+		scratch3 := seed
+		ps, _ := tls.VerifNewPRNGWithSaltedSeed(&scratch3, s)
+		scratch3 = tls.PRNGSeed{}
 		refS := sha3.NewSHAKE256()
 		refS.Write(s1[:])
 		x, y := make([]byte, 32), make([]byte, 32)
